@@ -13,7 +13,7 @@ Lemma sys_step_tab own s o :
   end.
 Proof.
   unfold sys_step. destruct (table_op s o) as [to |] eqn:E.
-  - destruct (step true own (s_tab s) to). reflexivity.
+  - destruct (step true own (s_tab s) to). destruct o; reflexivity.
   - destruct o; cbn in *; try discriminate; reflexivity.
 Qed.
 
